@@ -130,6 +130,17 @@ double GoldenSectionSearch::doStep()
 
 /******************************************************************************/
 
+double GoldenSectionSearch::optimize()
+{
+  AbstractOptimizer::optimize();
+  // The last trial point is not necessarily the best one: apply the best of the two interior points.
+  getParameter_(0).setValue(f1 < f2 ? x1 : x2);
+  currentValue_ = getFunction()->f(getParameters());
+  return currentValue_;
+}
+
+/******************************************************************************/
+
 double GoldenSectionSearch::getFunctionValue() const
 {
   if (!hasFunction())
